@@ -120,7 +120,10 @@ class Ob(object):
 
 
 class Loop(object):
-    def __init__(self, invariant="True", decreases=None, modifies=None, ghost_pre=None, variant_lower=None, after=None):
+    def __init__(self, invariant="True", decreases=None, modifies=None, ghost_pre=None, variant_lower=None, after=None, split=False):
+        # split: the preservation of a conjunctive invariant is discharged conjunct by conjunct (the whole invariant is assumed at the loop
+        # head as always) -- same obligation, smaller queries
+        self.split = split
         self.invariant = invariant
         self.decreases = decreases
         self.modifies = modifies  # extra heap locations havocked: ["Class.attr", ...]
@@ -1822,7 +1825,14 @@ class Executor(object):
         load = ast.copy_location(_as_load(s.target), s.target)
         cur = self.ev(load, st)
         rhs = self.ev(s.value, st)
-        v = self.binop(st, s.op, cur, rhs, s.lineno)
+        inplace = {ast.Add: "__iadd__", ast.Sub: "__isub__", ast.BitOr: "__ior__", ast.BitAnd: "__iand__"}.get(type(s.op))
+        if cur.kind == "ref" and cur.cls is not None and inplace is not None and (
+                self._contract_for(cur.cls, inplace) is not None or self._find_method(cur.cls, inplace) is not None):
+            # x += y on an object whose class defines the in-place operator: x = x.__iadd__(y)
+            self.require_not_none(st, cur, "operand of an in-place operator", s.lineno)
+            v = self.call_method(st, cur, inplace, [rhs], {}, s.lineno)
+        else:
+            v = self.binop(st, s.op, cur, rhs, s.lineno)
         self.assign(st, s.target, v, s.lineno)
         return [st], []
 
